@@ -76,6 +76,36 @@ Definition is_err (r : result) : bool := match r with RErr => true | _ => false 
 (* Some directory that the walk has to read cannot be read (or an entry cannot be examined). *)
 Definition has_error (t : tree) : bool := existsb is_err (walk_all [] t).
 
+(* ---- specification vocabulary ---------------------------------------------------------------- *)
+Definition is_dir (t : tree) : bool := match t with Dir _ _ => true | Leaf _ => false end.
+Definition kind_of_tree (t : tree) : option kind :=
+  match t with
+  | Leaf LFile => Some KFile | Leaf LLink => Some KLink | Leaf LOther => Some KOther | Leaf LBad => None
+  | Dir _ _ => Some KDir
+  end.
+
+(* [dir_at root p t]: t is the directory at path p, reached from the root by descending only through
+   readable real directories (never a link: links are leaves) that the filters keep. *)
+Inductive dir_at (root : tree) : path -> tree -> Prop :=
+| da_root : dir_at root [] root
+| da_child p ch n sub : dir_at root p (Dir true ch) -> In (n, (false, sub)) ch -> is_dir sub = true ->
+    dir_at root (p ++ [n]) sub.
+
+(* an entry that the filters keep, inside such a directory *)
+Definition included (root : tree) (e : entry) : Prop :=
+  exists p ch n sub, dir_at root p (Dir true ch) /\ In (n, (false, sub)) ch /\
+                     fst e = p ++ [n] /\ kind_of_tree sub = Some (snd e).
+
+(* every entry below the top level is preceded by the entry of its folder *)
+Definition parent_first (l : list entry) : Prop :=
+  forall a b p n k, l = a ++ (p ++ [n], k) :: b -> p <> [] -> In (p, KDir) a.
+(* ... hence by the entries of all the folders it is inside of *)
+Definition ancestors_first (l : list entry) : Prop :=
+  forall a b q r k, l = a ++ (q ++ r, k) :: b -> q <> [] -> r <> [] -> In (q, KDir) a.
+
+Definition ents (l : list result) : list entry :=
+  flat_map (fun r => match r with REntry e => [e] | RErr => [] end) l.
+
 (* ---- executable judge of an observed listing ---------------------------------------------- *)
 Definition kind_eqb (a b : kind) : bool :=
   match a, b with KFile, KFile | KLink, KLink | KDir, KDir | KOther, KOther => true | _, _ => false end.
